@@ -47,7 +47,7 @@
 EXTENDS Integers, Sequences, FiniteSets, TLC, Json
 
 CONSTANTS Slices,    \* the slices to explore (<- QuickSlices | ThoroughSlices | MutantSlices | ...)
-          Mut        \* "none" | "lt" | "nozero" | "wipeprev" | "rot1" | "rotdif" | "noremap" | "future" | "shared" | "steal" | "nogen" | "orphan" | "emptyskip" | "permvals"
+          Mut        \* "none" | "lt" | "nozero" | "wipeprev" | "rot1" | "rotdif" | "noremap" | "future" | "shared" | "steal" | "nogen" | "orphan" | "emptyskip" | "permvals" | "keytrunc"
 
 Base == 100          \* bucket id of the first clock reading (any value far from 0)
 
@@ -59,12 +59,13 @@ VARIABLES cs,        \* the case: [sl, NK, N, C, kind, dist, lim, steps, offs, w
           arrived,   \* history per key: <<bucket id, share>> -> arrived events/size (charged share)
           gm,        \* concurrent getOrAdd model (SpecMap below); constant <<>> under Spec
           rs,        \* rule selection model (SpecRule below); constant <<>> under Spec
+          ks,        \* limiter key model (SpecKey below); constant <<>> under Spec
           ex         \* limiters map: [tick = wall clock in maintenance intervals, cur = map generation
                      \*   (curGen: the tick of the last stamping), gen[k] = limiter's generation (-1: no
                      \*   limiter), last[k] = tick of k's last event (-1: none), busy[k] = since its first
                      \*   event k had an event in every maintenance interval (history)]
 
-vars == <<cs, hist, now, lims, passed, arrived, ex, gm, rs>>
+vars == <<cs, hist, now, lims, passed, arrived, ex, gm, rs, ks>>
 
 -----------------------------------------------------------------------------
 (* slices.  nk keys; n events; counts = buckets_count values; limits per key; kinds 0 = count,
@@ -249,7 +250,7 @@ Init ==
   /\ arrived = [k \in Keys |-> <<>>]
   /\ ex = [tick |-> 0, cur |-> 0, gen |-> [k \in Keys |-> -1], last |-> [k \in Keys |-> -1],
            busy |-> [k \in Keys |-> TRUE]]
-  /\ gm = <<>> /\ rs = <<>>
+  /\ gm = <<>> /\ rs = <<>> /\ ks = <<>>
 
 (* the clock advances by step, then an event of key k with time now+off, size w and distribution
    value v reaches Plugin.isAllowed: first matching rule -> limitersMap.getOrAdd(rule prefix + key)
@@ -270,7 +271,7 @@ Arrive(k, step, off, w, v) ==
        /\ arrived' = [arrived EXCEPT ![k] = Bump(@, <<r.id, r.sh>>, w)]
        /\ passed' = [passed EXCEPT ![k] = IF r.ok THEN Bump(@, <<r.id, r.sh>>, w) ELSE @]
        /\ ex' = [ex EXCEPT !.gen[k] = IF Mut = "nogen" /\ @ >= 0 THEN @ ELSE ex.cur, !.last[k] = ex.tick]
-       /\ UNCHANGED <<cs, gm, rs>>
+       /\ UNCHANGED <<cs, gm, rs, ks>>
 
 (* limitersMap.maintenance, one round under l.mu: curGen := now; delete every limiter with
    now - gen >= limitersExp.  (Recorded in hist with key 0 so that schedules stay distinct.) *)
@@ -288,7 +289,7 @@ Maintain ==
                busy |-> [k \in Keys |-> ex.busy[k] /\ (ex.last[k] = -1 \/ ex.last[k] = ex.tick)]]
      /\ hist' = Append(hist, [k |-> 0, now |-> now, ts |-> now, w |-> 0, v |-> 0, hi |-> 0, b |-> 0,
                               must |-> 2, id |-> 0, sh |-> 0, ok |-> TRUE])
-     /\ UNCHANGED <<cs, now, passed, arrived, gm, rs>>
+     /\ UNCHANGED <<cs, now, passed, arrived, gm, rs, ks>>
 
 Next ==
   /\ Len(hist) < cs.N
@@ -399,7 +400,7 @@ GProcs == 1..GP
 InitMap ==
   /\ cs = [sl |-> "map", NK |-> 0, N |-> 0, C |-> 1, kind |-> 0, dist |-> 0, lim |-> <<>>,
             steps |-> {}, offs |-> {}, ws |-> {}, E |-> 0]
-  /\ hist = <<>> /\ now = Base /\ lims = <<>> /\ passed = <<>> /\ arrived = <<>> /\ ex = <<>> /\ rs = <<>>
+  /\ hist = <<>> /\ now = Base /\ lims = <<>> /\ passed = <<>> /\ arrived = <<>> /\ ex = <<>> /\ rs = <<>> /\ ks = <<>>
   /\ gm = [map |-> <<>>,                          \* l.lims : key -> limiter id
            cnt |-> <<>>,                          \* limiter id -> bucket counter
            next |-> 1,                            \* next limiter id
@@ -441,7 +442,7 @@ GUse(p) ==
 
 NextMap ==
   /\ \E p \in GProcs : (\E k \in 1..GK : GStart(p, k)) \/ GFast(p) \/ GSlow(p) \/ GUse(p)
-  /\ UNCHANGED <<cs, hist, now, lims, passed, arrived, ex, rs>>
+  /\ UNCHANGED <<cs, hist, now, lims, passed, arrived, ex, rs, ks>>
 
 SpecMap == InitMap /\ [][NextMap]_vars
 
@@ -480,7 +481,7 @@ RDeclSel(rules, e) == IF RDeclMatch(rules[1], e) THEN 1 ELSE IF RDeclMatch(rules
 InitRule ==
   /\ cs = [sl |-> "rules", NK |-> 0, N |-> 0, C |-> 1, kind |-> 0, dist |-> 0, lim |-> <<>>,
             steps |-> {}, offs |-> {}, ws |-> {}, E |-> 0]
-  /\ hist = <<>> /\ now = Base /\ lims = <<>> /\ passed = <<>> /\ arrived = <<>> /\ ex = <<>> /\ gm = <<>>
+  /\ hist = <<>> /\ now = Base /\ lims = <<>> /\ passed = <<>> /\ arrived = <<>> /\ ex = <<>> /\ gm = <<>> /\ ks = <<>>
   /\ \E c1 \in RConds : \E c2 \in RConds : \E e \in REvents : rs = [rules |-> <<c1, c2>>, ev |-> e, sel |-> 0]
 
 (* Start builds the rules (newRule), then the event runs through Plugin.isAllowed's loop *)
@@ -489,7 +490,7 @@ NextRule ==
   /\ \E v1 \in RValsImpl(rs.rules[1]) : \E v2 \in RValsImpl(rs.rules[2]) :
        rs' = [rs EXCEPT !.sel = IF RIsMatch(RKeys(rs.rules[1]), v1, rs.ev) THEN 1
                                 ELSE IF RIsMatch(RKeys(rs.rules[2]), v2, rs.ev) THEN 2 ELSE 3]
-  /\ UNCHANGED <<cs, hist, now, lims, passed, arrived, ex, gm>>
+  /\ UNCHANGED <<cs, hist, now, lims, passed, arrived, ex, gm, ks>>
 
 SpecRule == InitRule /\ [][NextRule]_vars
 
@@ -498,6 +499,44 @@ FirstMatchingRuleGoverns == rs.sel # 0 => rs.sel = RDeclSel(rs.rules, rs.ev)
 ExportRule == rs.sel # 0 =>
   PrintT(ToJson([r |-> [i \in 1..2 |-> [f \in 1..3 |-> rs.rules[i][f]]], e |-> [f \in 1..3 |-> rs.ev[f]],
                  want |-> RDeclSel(rs.rules, rs.ev)]))
+
+-----------------------------------------------------------------------------
+(* SpecKey -- which limiter an event is checked against (limiters_map.go getOrAdd: the map key is the
+   rule's byteIdxPart followed by ALL bytes of the throttle key, whatever their number).  An event's
+   identity is (rule index, throttle key bytes); KeyOf must be injective on identities (mechanism
+   M_FullKey), so that every identity has a limiter -- a budget -- of its own.  Mutant "keytrunc": the
+   key is built in a fixed buffer of KW bytes and cut off.
+   Scope: two distinct identities out of {rule 1, rule 2} x byte strings over {1, 2} of length 0..3
+   (equal, prefix-of, differing only in the last byte, differing only in the rule), limit 1 each,
+   KN events in one frozen bucket in any order. *)
+M_FullKey == Mut # "keytrunc"
+KW == 3
+KN == 3
+KBytes == UNION {[1..n -> 1..2] : n \in 0..3}
+KIds == {<<r, b>> : r \in 1..2, b \in KBytes}
+KeyOf(id) == LET full == <<id[1]>> \o id[2]                   \* append(byteIdxPart, throttleKey...)
+             IN IF M_FullKey \/ Len(full) <= KW THEN full ELSE SubSeq(full, 1, KW)
+
+InitKey ==
+  /\ cs = [sl |-> "keys", NK |-> 0, N |-> 0, C |-> 1, kind |-> 0, dist |-> 0, lim |-> <<>>,
+            steps |-> {}, offs |-> {}, ws |-> {}, E |-> 0]
+  /\ hist = <<>> /\ now = Base /\ lims = <<>> /\ passed = <<>> /\ arrived = <<>> /\ ex = <<>> /\ gm = <<>> /\ rs = <<>>
+  /\ \E a \in KIds : \E b \in KIds \ {a} :
+       ks = [ids |-> <<a, b>>, cnt |-> <<>>, arr |-> <<0, 0>>, pas |-> <<0, 0>>, n |-> 0]
+
+(* an event of identity i: getOrAdd(KeyOf) -> that limiter's add-then-compare, limit 1 *)
+KeyEvent(i) ==
+  /\ ks.n < KN
+  /\ LET key == KeyOf(ks.ids[i])
+         c == Get(ks.cnt, key) + 1
+     IN ks' = [ks EXCEPT !.cnt = Bump(@, key, 1), !.arr[i] = @ + 1, !.pas[i] = IF c <= 1 THEN @ + 1 ELSE @, !.n = @ + 1]
+  /\ UNCHANGED <<cs, hist, now, lims, passed, arrived, ex, gm, rs>>
+
+SpecKey == InitKey /\ [][\E i \in 1..2 : KeyEvent(i)]_vars
+
+KeyOfInjective == KeyOf(ks.ids[1]) # KeyOf(ks.ids[2])
+(* every identity gets exactly its own budget: min(limit, arrivals) of ITS events pass *)
+KeyOwnBudget == \A i \in 1..2 : ks.pas[i] = (IF ks.arr[i] >= 1 THEN 1 ELSE 0)
 
 -----------------------------------------------------------------------------
 (* export of every explored history with the decision the transcription takes (ok) and what the
